@@ -261,6 +261,12 @@ class _EndType(Exception):
 _End = _EndType()
 
 
+def _asked(st: SrcState) -> None:
+    """The moment a source is (first) asked for its iterator, measured in uses of any source so far."""
+    if st.sid not in CTX.iter_asked:
+        CTX.iter_asked[st.sid] = {other.sid: other.uses for other in CTX.srcs}
+
+
 class SyncSrc:
     """Class based synchronous iterator (twin side and ``sync_iter`` flavour)."""
 
@@ -268,6 +274,7 @@ class SyncSrc:
         self.st = st
 
     def __iter__(self) -> "SyncSrc":
+        _asked(self.st)
         return self
 
     def __next__(self) -> Any:
@@ -457,6 +464,15 @@ class AsyncSrcAsend(AsyncSrc):
 
     async def asend(self, value: Any) -> Any:
         CTX.ev("asend", self.st.sid)
+        return await self.__anext__()
+
+
+class AsyncSrcAthrow(AsyncSrc):
+    """Class based async iterator with aclose and athrow but without asend: whatever is thrown in is absorbed (a
+    resumable feed told to skip ahead) and answered with the next item."""
+
+    async def athrow(self, typ: Any, val: Any = None, tb: Any = None) -> Any:
+        CTX.ev("athrow", self.st.sid)
         return await self.__anext__()
 
 
@@ -661,6 +677,7 @@ class AsyncIterable:
         if self.asked > 1:
             CTX.foreign.append(f"iterable {self.st.sid} was asked for an iterator {self.asked} times")
         self.st.given += 1
+        _asked(self.st)
         return AsyncSrc(self.st)
 
     def __iter__(self) -> Any:
@@ -695,6 +712,7 @@ class SyncIterable:
         self.asked += 1
         if self.asked > 1:
             CTX.foreign.append(f"iterable {self.st.sid} was asked for an iterator {self.asked} times")
+        _asked(self.st)
         return SyncSrc(self.st)
 
 
@@ -724,7 +742,7 @@ async def _async_gen(st: SrcState):
 
 FLAVOURS_SYNC = ("list", "tuple", "getitem_seq", "sync_iter", "sync_gen", "sync_iterable", "tuple_sub", "list_sub")
 FLAVOURS_ASYNC = ("async_gen", "async_class", "async_class_bare", "async_class_full", "async_class_asend",
-                  "async_class_future", "async_class_proxy", "async_class_lazy", "async_iterable", "async_class_lateclose", "async_class_delegating", "async_class_plainnext", "async_class_eagerstart", "async_class_bare_full", "async_class_sized", "async_class_aiter_once", "async_class_awaitable")
+                  "async_class_future", "async_class_proxy", "async_class_lazy", "async_iterable", "async_class_lateclose", "async_class_delegating", "async_class_plainnext", "async_class_eagerstart", "async_class_bare_full", "async_class_sized", "async_class_aiter_once", "async_class_awaitable", "async_class_athrow")
 FLAVOURS = FLAVOURS_SYNC + FLAVOURS_ASYNC
 
 
@@ -772,6 +790,8 @@ def make_source(st: SrcState, flavour: str) -> Any:
         return AsyncSrcAwaitable(st)
     if flavour == "async_class_asend":
         return AsyncSrcAsend(st)
+    if flavour == "async_class_athrow":
+        return AsyncSrcAthrow(st)
     if flavour == "async_class_future":
         return AsyncSrcFuture(st)
     if flavour == "async_class_proxy":
